@@ -524,6 +524,9 @@ func nesting(tier string) {
 				}
 			}
 		}
+		if usable%6 == 1 {
+			run.Sample(map[string]any{"pump": p.Name, "sql_at_depth_3": p.Build(3), "cycle": cycle, "model_says_guarded": guarded, "smallest_rejected_depth": smallestRejected, "largest_accepted_depth": largestAccepted})
+		}
 		report[p.Name] = map[string]any{"cycle": cycle, "model_says_guarded": guarded, "smallest_rejected_depth": smallestRejected, "largest_accepted_depth": largestAccepted}
 		for _, f := range cycle {
 			delete(unguardedCyclic, f)
